@@ -715,6 +715,8 @@ FAULT_TEXT = {
     'OkInsideText4': ' OK\n', 'OkInsideText5': 'OK \n', 'OkInsideText6': 'Error: OK not reached\n',
     'Garbled': '\x00\x01�garbage\x7f O K\n', 'EmptyOutput': '',
     'TruncatedOutput': 'O',
+    # bytes that no decoder accepts right around the letters OK (a decoder that drops them leaves exactly "OK")
+    'UndecodableAroundOk1': b'\xff\xfeOK\x80\n', 'UndecodableAroundOk2': b'garbage \xe9\n\xe9OK\xe8\nmore\n',
 }
 
 
@@ -752,8 +754,8 @@ def run(argv):
             if fault in FAULT_TEXT:
                 # the run does not genuinely report success
                 info['out'] = 'FAULT'
-                err = FAULT_TEXT[fault].encode('utf-8', 'replace')
-                rc = 0 if fault.startswith('OkInsideText') else 1
+                err = FAULT_TEXT[fault] if isinstance(FAULT_TEXT[fault], bytes) else FAULT_TEXT[fault].encode('utf-8', 'replace')
+                rc = 0 if fault.startswith('OkInsideText') or fault == 'UndecodableAroundOk2' else 1
             elif ok:
                 err = b'OK\nSignedInfo References (ok/all): 1/1\nManifests References (ok/all): 0/0\n'
             else:
